@@ -102,12 +102,11 @@ Lemma CacheFaulty_write c t i d :
   CacheFaulty content c -> (d = content (t, i) \/ length d <> length (content (t, i))) ->
   CacheFaulty content (c_write c t i d).
 Proof.
-  intros H Hd k x I. unfold c_write in I. simpl in I. apply In_set in I.
-  destruct I as [[-> ->]|I]; [exact Hd | eauto].
+  intros H Hd k x F. unfold c_write in F. cbn [files] in F.
+  destruct (key_eqb k (t, i)) eqn:E.
+  - apply key_eqb_eq in E. subst k. rewrite find_set_eq in F. inv F. exact Hd.
+  - rewrite find_set_neq in F by exact E. eauto.
 Qed.
-Lemma CacheFaulty_le c c' :
-  CacheFaulty content c -> (forall p, In p (files c') -> In p (files c)) -> CacheFaulty content c'.
-Proof. intros H L k d I. apply H. apply L. exact I. Qed.
 End Honest.
 
 (* ------------------------------------------------------------------ cache shrinking *)
@@ -115,6 +114,8 @@ Lemma cache_le_refl c : cache_le c c.
 Proof. intros k d H. exact H. Qed.
 Lemma cache_le_trans a b c : cache_le a b -> cache_le b c -> cache_le a c.
 Proof. intros H1 H2 k d H. auto. Qed.
+Lemma CacheFaulty_le content c c' : CacheFaulty content c -> cache_le c' c -> CacheFaulty content c'.
+Proof. intros H L k d F. apply H. apply L. exact F. Qed.
 Lemma CoherentT_le t c c' be : CoherentT t c be -> cache_le c' c -> CoherentT t c' be.
 Proof. intros H L i d F. apply H. apply L. exact F. Qed.
 
